@@ -454,9 +454,10 @@ func (u *UriValue) ToString(b io.Writer, s px.FormatContext, g px.RDetect) {
 	case 's':
 		f.ApplyStringFlags(b, val, f.IsAlt())
 	case 'p':
-		utils.WriteString(b, `URI(`)
-		utils.PuppetQuote(b, val)
-		utils.WriteByte(b, ')')
+		bld := bytes.NewBufferString(`URI(`)
+		utils.PuppetQuote(bld, val)
+		bld.WriteByte(')')
+		f.ApplyStringFlags(b, bld.String(), false)
 	default:
 		panic(s.UnsupportedFormat(u.PType(), `sp`, f))
 	}
